@@ -66,7 +66,8 @@ static void drv_aborted(void) { a_end(); }
 static void partner_make(str_t *p, int lit)
 {
     S(init)(p);
-    if (lit) S(set_str)(p, LIT[lit]);
+    if (lit == 8) { S(set_str)(p, LIT[4]); S(insert_ch)(p, 1, 1, 0); }      /* "ab" with a NUL inserted: a, NUL, b */
+    else if (lit) S(set_str)(p, LIT[lit]);
 }
 static void chars_json(jb_t *b, const ch_t *p, size_t n)
 {
@@ -205,10 +206,11 @@ static int drv_enum(vop_t *ops, int max)
                 if (LITLEN[l] <= room) ADD(3, T_N(p), l, T_N(LITLEN[l]), f);      /* copies the terminator too */
                 if (room >= 1) ADD(3, T_N(p), l, T_N(1), f);
             }
-            for (l = 0; l <= 6; l += 2) if ((l ? LITLEN[l] - 1 : 0) <= room) ADD(7, T_N(p), l, 0, f);
+            for (l = 0; l <= 8; l += 2) if ((l == 8 ? 3 : l ? LITLEN[l] - 1 : 0) <= room) ADD(7, T_N(p), l, 0, f);
         }
         for (c = 0; c <= 2; c++) if (room >= 1) ADD(2, T_N(1), c, 0, f);
         if (room >= 2) { ADD(5, 4, 0, 0, f); ADD(6, 6, T_N(2), 0, f); ADD(8, 5, 0, 0, f); }
+        if (room >= 3) ADD(8, 8, 0, 0, f);
         ADD(8, 0, 0, 0, f);
         for (n = 0; n <= MAXLEN; n++) { ADD(10, T_N(n), 0, 0, f); ADD(11, T_N(n), 0, 0, f); }
         for (p = 0; p < 3; p++) { ADD(10, huge[p], 0, 0, f); ADD(11, huge[p], 0, 0, f); }
@@ -229,16 +231,17 @@ static int drv_enum(vop_t *ops, int max)
     ADD(9, T_MAX(0), T_N(1), 0, 0); ADD(9, T_MAX(0), T_MAX(0), 0, 0);
     ADD(12, 0, 0, 0, 0);
     for (l = 0; l <= NLIT; l++) if ((l ? LITLEN[l] - 1 : 0) <= MAXLEN && l != 7) ADD(13, l, 0, 0, 0);
+    if (MAXLEN >= 3) ADD(13, 8, 0, 0, 0);
     if (PROBES) {
         for (p = 0; p <= sz + 1; p++) {
             ADD(15, T_N(p), 0, 0, 0);
             for (c = 0; c <= 2; c++) ADD(16, c, T_N(p), 0, 0);
             for (l = 1; l <= NLIT; l++) ADD(17, l, T_N(p), 0, 0);
-            ADD(18, 0, T_N(p), 0, 0); ADD(18, 4, T_N(p), 0, 0);
+            ADD(18, 0, T_N(p), 0, 0); ADD(18, 4, T_N(p), 0, 0); ADD(18, 8, T_N(p), 0, 0);
         }
         ADD(15, T_MAX(0), 0, 0, 0); ADD(16, 1, T_MAX(0), 0, 0); ADD(17, 2, T_MAX(1), 0, 0);
         for (l = 1; l <= NLIT; l++) ADD(19, l, 0, 0, 0);
-        ADD(20, 0, 0, 0, 0); ADD(20, 4, 0, 0, 0); ADD(20, 6, 0, 0, 0);
+        ADD(20, 0, 0, 0, 0); ADD(20, 4, 0, 0, 0); ADD(20, 6, 0, 0, 0); ADD(20, 8, 0, 0, 0);
         ADD(21, 0, 0, 0, 0);
     }
     return no;
@@ -260,7 +263,7 @@ static int drv_random(unsigned long (*rnd)(void), vop_t *op)
     }
     else if (r < 18) { op->k = 4; op->a[0] = T_N(pe); op->a[1] = l; }
     else if (r < 22) { op->k = 3; op->a[0] = T_N(pe); op->a[1] = l; op->a[2] = T_N((int)(rnd() % (unsigned)(LITLEN[l] + 1))); }
-    else if (r < 26) { op->k = 7; op->a[0] = T_N(pe); op->a[1] = (int)(rnd() % 7); }
+    else if (r < 26) { op->k = 7; op->a[0] = T_N(pe); op->a[1] = (int)(rnd() % 9); if (op->a[1] == 7) op->a[1] = 8; }
     else if (r < 30) {
         op->k = 2 + 3 * (int)(rnd() % 2);
         if (op->k == 2) { int cnt = (rnd() % 4 == 0) ? (int)(rnd() % 70) : (int)(rnd() % 3); if (cnt > room) cnt = room > 0 ? room : 0; op->a[0] = T_N(cnt); op->a[1] = c; }
